@@ -85,6 +85,8 @@ def write_coqproject():
 def regen():
     """Tie 1: regenerate coq/gen from /repo's working tree. Returns item->status."""
     rc, out = run([sys.executable, os.path.join(ROOT, "tools", "rs2v.py")], timeout=300)
+    # spec/SpecTables.v is generated from my transcription of the H.263 code tables (vlib/h263spec.py): keep it in step
+    run([sys.executable, os.path.join(ROOT, "tools", "gen_spec_tables.py")], timeout=60)
     st = {}
     p = os.path.join(COQ, "gen", "STATUS.json")
     if os.path.exists(p):
@@ -410,6 +412,29 @@ def proof_step(ctx, theorems, bridges=(), extra_targets=(), allowed_axioms=()):
             by, problems = coq_audit(ctx.pid, theorems, allowed_axioms)
             ctx.cov["axioms"] = by
             broken += problems
+    if not broken and ctx.tier == "thorough":
+        # thorough tier: re-check the compiled property file and everything it depends on with the independent checker
+        rc, out = run(["coqchk", "-o", "-silent", "-Q", ".", "H263V", "H263V.props.%s" % ctx.pid], cwd=COQ, timeout=3000)
+        ctx.cov["checker_cmd"] += " ; coqchk -o -silent -Q . H263V H263V.props.%s" % ctx.pid
+        text = out if isinstance(out, str) else out.decode()
+        m = re.search(r"\* Axioms:(.*?)\n\s*\n\* Constants/Inductives relying on type-in-type", text, re.S)
+        axs = []
+        if m and "<none>" not in m.group(1):
+            axs = [l.strip() for l in m.group(1).strip().split("\n") if l.strip()]
+        ctx.cov["coqchk"] = {"exit": rc, "axioms": axs}
+        allow = list(allowed_axioms)
+        def allowed(a):
+            a = a.split(":")[0].strip()
+            return any((p.endswith("*") and a.startswith(p[:-1])) or a == p or a.split(".")[-1] == p.split(".")[-1] for p in allow)
+        if rc != 0:
+            broken.append("coqchk rejects props/%s.vo: %s" % (ctx.pid, text[-300:]))
+        for a in axs:
+            if not allowed(a):
+                broken.append("coqchk: axiom outside the allow-list: " + a)
+        for key in ("type-in-type", "unsafe (co)fixpoints", "positivity is assumed"):
+            mm = re.search(re.escape(key) + r":(.*?)\n\s*\n", text + "\n\n", re.S)
+            if mm and "<none>" not in mm.group(1):
+                broken.append("coqchk: " + key + ": " + mm.group(1).strip()[:200])
     for k, v in st.items():
         if v != "ok":
             ctx.cov["tie"].setdefault("regen_problems", []).append("%s: %s" % (k, v))
